@@ -19,7 +19,7 @@ import ast
 from fractions import Fraction
 
 from ..expr import SymEval, SArray, Rec, Obj, Opaque, Unsupported
-from ..model import AnalysisError, norm_text
+from ..model import AnalysisError, norm_text, FunctionInfo
 from ..nf import Alg, Rat
 from ..rotmodel import RotHooks, EulerOf, RotObj
 
@@ -64,94 +64,191 @@ def _eval_T(ctx, ev, em, emc, pva, name='transform_to_output'):
 
 
 # --------------------------------------------------------------------- ES-INV
+class _TEval:
+    """transform_to_output / transform_to_internal in the non-commutative normal form:
+    X = the 9x9 builder at the argument, E = the 2-D embedding at (VN, VE) of the argument,
+    K:<name> = a class-level constant matrix, inv(.) by inverse atoms."""
+
+    def __init__(self, ctx, emc, m, with_altitude):
+        from .kal import NCAlg
+        self.ctx, self.emc, self.m, self.wa = ctx, emc, m, with_altitude
+        self.A = NCAlg()
+        self.env = {}
+        self.p = m.params[1]
+        self.consts = set()
+        self.res = lambda n: m.module.resolve(n, m.local_names())
+
+    def named(self, name, inv_of=None):
+        A = self.A
+        if inv_of is not None:
+            A.inverse[inv_of] = name
+            A.inverse[name] = inv_of
+        return A.atom(name)
+
+    def ev(self, e):
+        A = self.A
+        if isinstance(e, ast.Name):
+            if e.id in self.env:
+                return self.env[e.id]
+            raise AnalysisError('%s: `%s`' % (self.m.name, e.id))
+        if isinstance(e, ast.Attribute) and isinstance(e.value, ast.Name) and \
+                e.value.id in ('self', 'cls'):
+            mem = self.ctx.repo.class_member(self.emc, e.attr)
+            if isinstance(mem, tuple) and mem[0] == 'const':
+                self.consts.add(e.attr)
+                return A.atom('K:' + e.attr)
+            raise AnalysisError('%s reads self.%s' % (self.m.name, e.attr))
+        if isinstance(e, ast.Attribute) and e.attr == 'T':
+            return A.T(self.ev(e.value))
+        if isinstance(e, ast.BinOp) and isinstance(e.op, ast.MatMult):
+            return A.mul(self.ev(e.left), self.ev(e.right))
+        if isinstance(e, ast.Call):
+            q = self.res(e.func) or ''
+            fn = e.func
+            if isinstance(fn, ast.Attribute) and isinstance(fn.value, ast.Name) and \
+                    fn.value.id in ('self', 'cls'):
+                mem = self.ctx.repo.class_member(self.emc, fn.attr)
+                args = [norm_text(a) for a in e.args]
+                if isinstance(mem, FunctionInfo):
+                    vn = {'%s.VN' % self.p, "%s['VN']" % self.p}
+                    ve = {'%s.VE' % self.p, "%s['VE']" % self.p}
+                    if len(args) == 2 and args[0] in vn and args[1] in ve:
+                        self.embed = mem
+                        return A.atom('E')
+                    if args == [self.p]:
+                        self.builder = mem
+                        return A.atom('X:' + mem.name)
+                    return A.atom('%s(%s)' % (mem.name, ', '.join(args)))
+            if q in ('numpy.linalg.inv', 'scipy.linalg.inv') and len(e.args) == 1:
+                v = self.ev(e.args[0])
+                if len(v.t) == 1:
+                    (mm, c), = v.t.items()
+                    if c == 1 and len(mm) == 1 and not mm[0][1]:
+                        return self.named('inv(%s)' % mm[0][0], mm[0][0])
+                raise AnalysisError('%s: inverse of a composite matrix' % self.m.name)
+            if q in ('numpy.linalg.pinv', 'scipy.linalg.pinv') and len(e.args) == 1:
+                v = self.ev(e.args[0])
+                return A.atom('pinv(%s)' % v.key())
+            if q == 'pyins.util.mm_prod' and len(e.args) == 2 and not e.keywords:
+                return A.mul(self.ev(e.args[0]), self.ev(e.args[1]))
+            if q in ('numpy.dot', 'numpy.matmul') and len(e.args) == 2:
+                return A.mul(self.ev(e.args[0]), self.ev(e.args[1]))
+            if isinstance(fn, ast.Attribute) and fn.attr == 'dot' and len(e.args) == 1:
+                return A.mul(self.ev(fn.value), self.ev(e.args[0]))
+            if isinstance(fn, ast.Attribute) and fn.attr == 'transpose' and not e.args:
+                return A.T(self.ev(fn.value))
+            if q == 'numpy.transpose' and len(e.args) == 1 and not e.keywords:
+                return A.T(self.ev(e.args[0]))
+        raise AnalysisError('%s: expression `%s`' % (self.m.name, norm_text(e)[:50]))
+
+    def run(self):
+        def block(body):
+            for st in body:
+                if isinstance(st, ast.Expr) and isinstance(st.value, ast.Constant):
+                    continue
+                if isinstance(st, ast.Assign) and len(st.targets) == 1 and \
+                        isinstance(st.targets[0], ast.Name):
+                    self.env[st.targets[0].id] = self.ev(st.value)
+                    continue
+                if isinstance(st, ast.If):
+                    t = norm_text(st.test)
+                    if t in ('not self.with_altitude', 'self.with_altitude is False',
+                             'self.with_altitude == False'):
+                        r = block(st.body if not self.wa else st.orelse)
+                    elif t in ('self.with_altitude', 'self.with_altitude is True'):
+                        r = block(st.body if self.wa else st.orelse)
+                    else:
+                        raise AnalysisError('%s: test `%s`' % (self.m.name, t[:40]))
+                    if r is not None:
+                        return r
+                    continue
+                if isinstance(st, ast.Return):
+                    return self.ev(st.value)
+                raise AnalysisError('%s: statement `%s`' % (self.m.name, norm_text(st)[:50]))
+            return None
+        r = block(self.m.node.body)
+        if r is None:
+            raise AnalysisError('%s: no return' % self.m.name)
+        return r
+
+
 def es_inv(ctx):
-    ctx.rule('ES-INV', 'transform_to_internal is the left inverse of transform_to_output by '
-             'construction: same builder, inv, S @ E = I_7')
+    ctx.rule('ES-INV', 'transform_to_internal @ transform_to_output == I (3-D: inv(X) X; 2-D: a '
+             'constant selection K of the 9 components with K E = I_7, applied to inv(X): what is '
+             'dropped is exactly the down / vertical-velocity component, whatever its value)')
     repo = ctx.repo
     emc = repo.klass('error_model.InsErrorModel')
     ti, to = emc.methods['transform_to_internal'], emc.methods['transform_to_output']
-    builder = None
-    invs = [n for n in ast.walk(ti.node) if isinstance(n, ast.Call) and
-            ti.module.resolve(n.func, ti.local_names()) in ('numpy.linalg.inv',
-                                                            'scipy.linalg.inv')]
-    ok = len(invs) == 1 and isinstance(invs[0].args[0], ast.Call) and \
-        isinstance(invs[0].args[0].func, ast.Attribute) and \
-        norm_text(invs[0].args[0].func.value) == 'self' and \
-        [norm_text(a) for a in invs[0].args[0].args] == [ti.params[1]]
-    if ok:
-        builder = invs[0].args[0].func.attr
-    ctx.ob('ES-INV', ok, None, 'internal = inv(builder(pva))', f=ti,
-           node=(invs[0] if invs else ti.node), key='inv',
-           why='transform_to_internal is not the matrix inverse of the 9x9 output builder '
-               'evaluated at its argument')
-    calls = [n for n in ast.walk(to.node) if isinstance(n, ast.Call) and
-             isinstance(n.func, ast.Attribute) and norm_text(n.func.value) == 'self' and
-             n.func.attr == builder]
-    ok = len(calls) == 1 and [norm_text(a) for a in calls[0].args] == [to.params[1]]
-    ctx.ob('ES-INV', ok, None, 'output = the same builder(pva)', f=to,
-           node=(calls[0] if calls else to.node), key='same-builder',
-           why='transform_to_output does not use the builder `%s` that transform_to_internal '
-               'inverts' % builder)
-    # 2-D arms (variables by role: the local that holds the inverse / the builder result)
-    def arm(m):
-        for st in m.node.body:
-            if isinstance(st, ast.If) and norm_text(st.test) == 'not self.with_altitude':
-                return st
-        return None
-
-    def holder(m, call_node):
-        for st in m.node.body:
-            if isinstance(st, ast.Assign) and isinstance(st.targets[0], ast.Name) and \
-                    any(x is call_node for x in ast.walk(st.value)):
-                return st.targets[0].id
-        return None
-    a_i, a_o = arm(ti), arm(to)
-    r_i = holder(ti, invs[0]) if invs else None
-    r_o = holder(to, calls[0]) if calls else None
-
-    def is_S(n):
-        return norm_text(n) in ('self.TRANSFORM_2D_3D', 'cls.TRANSFORM_2D_3D')
-    ok = False
-    if a_i is not None and len(a_i.body) == 1 and isinstance(a_i.body[0], ast.Assign) and r_i:
-        st = a_i.body[0]
-        v = st.value
-        if norm_text(st.targets[0]) == r_i:
-            if isinstance(v, ast.BinOp) and isinstance(v.op, ast.MatMult):
-                ok = is_S(v.left) and norm_text(v.right) == r_i
-            elif isinstance(v, ast.Call) and norm_text(v.func) in ('util.mm_prod', 'np.dot',
-                                                                   'np.matmul') and \
-                    len(v.args) == 2 and not v.keywords:
-                ok = is_S(v.args[0]) and norm_text(v.args[1]) == r_i
-    ctx.ob('ES-INV', ok, None, '2-D internal = S @ inv(X)', f=ti, node=(a_i or ti.node),
-           key='2d-internal', why='2-D transform_to_internal is not TRANSFORM_2D_3D @ inv(X)')
-    ok = False
-    if a_o is not None and len(a_o.body) == 1 and isinstance(a_o.body[0], ast.Assign) and r_o:
-        st = a_o.body[0]
-        v = st.value
-        want_e = 'self._transform_3d_2d(%s.VN, %s.VE)' % (to.params[1], to.params[1])
-        if norm_text(st.targets[0]) == r_o:
-            if isinstance(v, ast.BinOp) and isinstance(v.op, ast.MatMult):
-                ok = norm_text(v.left) == r_o and norm_text(v.right) == want_e
-            elif isinstance(v, ast.Call) and norm_text(v.func) == 'util.mm_prod' and \
-                    len(v.args) == 2 and not v.keywords:
-                ok = norm_text(v.args[0]) == r_o and norm_text(v.args[1]) == want_e
-    ctx.ob('ES-INV', ok, None, '2-D output = X @ E(VN, VE)', f=to, node=(a_o or to.node),
-           key='2d-output', why='2-D transform_to_output is not X @ _transform_3d_2d(VN, VE)')
-    # S @ E = I
-    ev = SymEval(repo, Alg())
-    A = ev.A
-    _, em = _em(ctx, ev, False)
-    try:
-        E = ev.call_function(emc.methods['_transform_3d_2d'], [A.sym('VN'), A.sym('VE')], {}, em)
-        S = ev.global_value('pyins.error_model.InsErrorModel.TRANSFORM_2D_3D')
-        SE = ev.matmul(S, E)
-    except Unsupported as e:
-        raise AnalysisError('2-D embedding not analysable: %s' % e)
-    ok = SE.shape == (7, 7) and all(
-        A.eq(SE.get((i, j)), A.const(1 if i == j else 0)) for i in range(7) for j in range(7))
-    ctx.ob('ES-INV', ok, None, 'TRANSFORM_2D_3D @ _transform_3d_2d(VN, VE) == I_7',
-           f=emc.methods['_transform_3d_2d'], key='SE',
-           why='selection and embedding of the 7-state model are not inverse to each other')
+    for wa in (True, False):
+        I_, O_ = _TEval(ctx, emc, ti, wa), _TEval(ctx, emc, to, wa)
+        # one algebra for both
+        O_.A = I_.A
+        vi, vo = I_.run(), O_.run()
+        A = I_.A
+        xs = sorted({a_ for v_ in (vi, vo) for mm_ in v_.t for a_, _ in mm_
+                     if a_.startswith('X:')} | {k for k in A.inverse if k.startswith('X:')})
+        if wa:
+            ok = A.eq(A.mul(vi, vo), A.ident()) and len(xs) == 1
+            ctx.ob('ES-INV', ok, None, '3-D: internal @ output == I (internal = inv(X), output = X '
+                   'with the same builder on the argument)', f=ti, key='3d',
+                   why='3-D transform_to_internal @ transform_to_output is `%s`, not the identity '
+                       '(different builders, or not the inverse)' % A.mul(vi, vo).key()[:120])
+            continue
+        # 2-D: output = X E ; internal = K inv(X) with K a constant selection
+        okO = len(xs) == 1 and A.eq(vo, A.mul(A.atom(xs[0]), A.atom('E')))
+        ctx.ob('ES-INV', okO, None, '2-D output = X @ E(VN, VE) of the argument', f=to,
+               key='2d-output', why='2-D transform_to_output is `%s`, not X @ '
+                                    '_transform_3d_2d(VN, VE) of its argument' % vo.key()[:100])
+        K = None
+        if len(vi.t) == 1 and len(xs) == 1:
+            (mm, c), = vi.t.items()
+            if c == 1 and len(mm) == 2 and mm[1] == (A.inverse.get(xs[0]), False) and \
+                    mm[0][0].startswith('K:') and not mm[0][1]:
+                K = mm[0][0][2:]
+        ctx.ob('ES-INV', K is not None, None, '2-D internal = K @ inv(X) with K a constant matrix',
+               f=ti, key='2d-internal',
+               why='2-D transform_to_internal is `%s`: the reduction from 9 to 7 components is '
+                   'not a constant matrix applied to inv(X) (a state-dependent reduction such as '
+                   'pinv(E) lets the vertical-velocity component of an output error leak into '
+                   'the modelled states)' % vi.key()[:120])
+        if K is None:
+            continue
+        ev = SymEval(repo, Alg())
+        A2 = ev.A
+        _, em = _em(ctx, ev, False)
+        try:
+            E = ev.call_function(emc.methods['_transform_3d_2d'], [A2.sym('VN'), A2.sym('VE')],
+                                 {}, em)
+            S = ev.global_value('pyins.error_model.InsErrorModel.' + K)
+            SE = ev.matmul(S, E)
+        except Unsupported as e:
+            raise AnalysisError('2-D embedding not analysable: %s' % e)
+        ok = SE.shape == (7, 7) and all(
+            A2.eq(SE.get((i, j)), A2.const(1 if i == j else 0)) for i in range(7)
+            for j in range(7))
+        ctx.ob('ES-INV', ok, None, '%s @ _transform_3d_2d(VN, VE) == I_7' % K,
+               f=emc.methods['_transform_3d_2d'], key='SE',
+               why='selection and embedding of the 7-state model are not inverse to each other')
+        # K is a selection: unit rows, and the dropped columns are the vertical components
+        sel, unit = [], True
+        for i in range(S.shape[0]):
+            row = [S.get((i, j)) for j in range(S.shape[1])]
+            ones = [j for j, v in enumerate(row) if A2.is_const(v) and A2.const_of(v) == 1]
+            zeros = [j for j, v in enumerate(row) if A2.is_const(v) and A2.const_of(v) == 0]
+            if len(ones) != 1 or len(ones) + len(zeros) != len(row):
+                unit = False
+            sel += ones
+        dropped = sorted(set(range(S.shape[1])) - set(sel))
+        try:
+            want = sorted([repo.const('error_model.InsErrorModel.DRD'),
+                           repo.const('error_model.InsErrorModel.DVD')])
+        except AnalysisError:
+            want = None
+        ctx.ob('ES-INV', unit and len(set(sel)) == len(sel) and (want is None or dropped == want),
+               None, '%s selects 7 of the 9 components and drops down position / vertical velocity '
+               '%s' % (K, dropped), f=ti, key='selection',
+               why='%s is not a selection of components that drops exactly the down-position and '
+                   'vertical-velocity errors (dropped: %s)' % (K, dropped))
 
 
 # -------------------------------------------------------------------- ES-FIRST
